@@ -4,6 +4,7 @@ import common as C
 import statelib
 from framework import Unit
 
+PROPS_FILES = ['C12', 'C12status', 'C12return', 'C12hints']
 IMPORTS = 'From ArmV Require Import Spec.Arch.\nFrom Gen Require Import enums core.'
 SPEC_IMPORTS = 'From ArmV Require Import Spec.Pseudocode Spec.Arch.'
 MODES = [16, 17, 18, 19, 22, 23, 26, 27, 31]
@@ -137,6 +138,123 @@ def return_cases(rng, tier):
     return out
 
 
+def status_cases(rng, tier):
+    """MRS / MSR (application and system level, immediate and register forms) against Spec/StatusAccess.v, from every mode
+    with arbitrary SPSR contents, byte masks and operand values"""
+    t = statelib.load_index(C.GEN)['tables']
+    out = []
+    per = 30 if tier == 'quick' else 1500
+    ix = {n: t['sys_names'].index(n) for n in ('cpsr', 'scr', 'sctlr', 'nsacr')}
+    spsr_ix = [t['sys_names'].index(n) for n in ('spsr_svc', 'spsr_abt', 'spsr_und', 'spsr_mon', 'spsr_irq', 'spsr_fiq')]
+    for cls in ('MrsApplication', 'MrsSystem', 'MsrImmediateApplication', 'MsrRegisterApplication', 'MsrImmediateSystem', 'MsrRegisterSystem'):
+        for _ in range(per):
+            cfgd = dict(statelib.DEFAULT_CFG)
+            cfgd['have_security_ext'] = rng.random() < 0.8
+            cfgd['arch_version'] = rng.choice([6, 7])
+            st = statelib.reset_state(t, cfg=cfgd, mem=[])
+            mode = rng.choice([16, 16, 17, 18, 19, 23, 27, 31] + ([22] if cfgd['have_security_ext'] else []))
+            st['sys'][ix['cpsr']] = (rng.getrandbits(5) << 27) | (rng.getrandbits(4) << 16) | (rng.getrandbits(4) << 6) | mode
+            st['sys'][ix['scr']] = rng.getrandbits(6)
+            st['sys'][ix['nsacr']] = rng.getrandbits(1) << 19
+            st['sys'][ix['sctlr']] = (rng.getrandbits(1) << 27) | 0x00C50078
+            for i in spsr_ix:
+                st['sys'][i] = rng.getrandbits(32)
+            st['R'] = [rng.getrandbits(32) for _ in range(34)]
+            st['opcode'], st['opcode_len'] = 0xE0000000, 32
+            hs = int(cfgd['have_security_ext'])
+            cfg = statelib.coq_config(cfgd, t)
+            m = statelib.coq_machine(st)
+            d, n = rng.sample(range(13), 2)
+            value = rng.choice([rng.getrandbits(32), 0xFFFFFFFF, 0, (rng.getrandbits(27) << 5) | rng.choice([16, 17, 19, 22, 26, 27, 31, 0, 21])])
+            mask = rng.choice([rng.getrandbits(4), 15, 1, 9, 8])
+            ws = rng.getrandbits(1)
+            wn, wg = rng.choice([(1, 0), (0, 1), (1, 1), (0, 0)])
+            if cls == 'MrsApplication':
+                fields, cf, spec = [0, d], True, f'(MRS_app {m} {d})'
+            elif cls == 'MrsSystem':
+                fields, cf, spec = [0, ws, d], True, f'(MRS_sys {m} {ws} {d})'
+            elif cls == 'MsrImmediateApplication':
+                fields, cf, spec = [0, wn, wg, value], False, f'(MSR_app {m} {wn} {wg} {value})'
+            elif cls == 'MsrRegisterApplication':
+                fields, cf, spec = [0, wn, wg, n], True, f'(MSR_app {m} {wn} {wg} (rget {m} {n}))'
+            elif cls == 'MsrImmediateSystem':
+                fields, cf, spec = [0, ws, mask, value], True, f'(MSR_sys (ctx_of {hs} 0 {m}) {m} {ws} {mask} {value})'
+            else:
+                fields, cf, spec = [0, ws, mask, n], True, f'(MSR_sys (ctx_of {hs} 0 {m}) {m} {ws} {mask} (rget {m} {n}))'
+            args = ' '.join(str(x) for x in fields)
+            model = f'(enc_out enc_machine enc_unit ({cls}_execute {cfg + " " if cf else ""}{args} {m}))'
+            out.append({'impl': {'kind': 'exec', 'state': st, 'module': snake(cls), 'cls': cls, 'fields': fields},
+                        'model': model, 'spec': f'(enc_out enc_machine enc_unit (Ok tt {spec}))', 'label': 'status_' + cls, 'nontrivial': True})
+    return out
+
+
+def hint_cases(rng, tier):
+    """SETEND, CPS, ERET, NOP, CLREX, YIELD, SEV, WFE, WFI against Spec/StatusAccess.v from every mode, with and without a
+    registered event"""
+    t = statelib.load_index(C.GEN)['tables']
+    out = []
+    per = 24 if tier == 'quick' else 1200
+    ix = {n: t['sys_names'].index(n) for n in ('cpsr', 'scr', 'sctlr', 'nsacr', 'event_register', 'elr_hyp')}
+    spsr_ix = [t['sys_names'].index(n) for n in ('spsr_svc', 'spsr_abt', 'spsr_und', 'spsr_mon', 'spsr_irq', 'spsr_fiq')]
+    for cls in ('Nop', 'Clrex', 'Yield', 'Sev', 'Setend', 'Wfe', 'Wfi', 'Eret', 'CpsArm', 'CpsThumb'):
+        for _ in range(per):
+            cfgd = dict(statelib.DEFAULT_CFG)
+            cfgd['have_security_ext'] = rng.random() < 0.8
+            cfgd['arch_version'] = rng.choice([6, 7])
+            st = statelib.reset_state(t, cfg=cfgd, mem=[])
+            thumb = int(cls in ('CpsThumb',) or (cls in ('Eret', 'Setend', 'Nop') and rng.random() < 0.4))
+            modes = [17, 18, 19, 23, 27] + ([22] if cfgd['have_security_ext'] else [])
+            mode = rng.choice(modes if cls == 'Eret' else modes + [16, 16, 31])
+            st['sys'][ix['cpsr']] = (rng.getrandbits(4) << 28) | (rng.getrandbits(4) << 6) | (thumb << 5) | mode
+            st['sys'][ix['scr']] = rng.getrandbits(6)
+            st['sys'][ix['nsacr']] = rng.getrandbits(1) << 19
+            st['sys'][ix['sctlr']] = (rng.getrandbits(1) << 27) | 0x00C50078
+            st['sys'][ix['event_register']] = rng.getrandbits(1)
+            st['sys'][ix['elr_hyp']] = rng.getrandbits(32)
+            for i in spsr_ix:
+                st['sys'][i] = (rng.getrandbits(27) << 5) | rng.choice([16, 16, 17, 18, 19, 23, 27, 31, 22, rng.getrandbits(5)])
+            st['R'] = [rng.getrandbits(32) for _ in range(34)]
+            st['opcode'], st['opcode_len'] = (0xE0000000, 32) if not thumb else (0xF3DE8F00, 32)
+            hs, jaz = int(cfgd['have_security_ext']), int(cfgd['jazelle_accepts_execution'])
+            cfg = statelib.coq_config(cfgd, t)
+            m = statelib.coq_machine(st)
+            cf = True
+            if cls in ('Nop', 'Clrex'):
+                fields, cf, spec = [0], cls == 'Clrex', f'(Ok tt {m})'
+            elif cls in ('Yield', 'Sev'):
+                fields, cf, spec = [0], False, f'(Exc ENotImpl {m})'
+            elif cls == 'Setend':
+                e = rng.getrandbits(1)
+                fields, cf, spec = [0, e], False, f'(Ok tt (SETEND {m} {e}))'
+            elif cls == 'Wfe':
+                fields, spec = [0], f'(Ok tt (WFE {m}))'
+            elif cls == 'Wfi':
+                fields, spec = [0], f'(Ok tt (WFI {m}))'
+            elif cls == 'Eret':
+                fields, spec = [0], f'(Ok tt (ERET {jaz} {hs} 0 {m}))'
+            else:
+                if rng.random() < 0.7:
+                    imod, a, i, f, cm = rng.choice([2, 3]), rng.getrandbits(1), rng.getrandbits(1), rng.getrandbits(1), rng.getrandbits(1)
+                else:
+                    imod, a, i, f, cm = 0, 0, 0, 0, 1
+                md = rng.choice([16, 17, 18, 19, 22, 23, 26, 27, 31, 0, 21]) if cm else 0
+                en, dis = int(imod == 2), int(imod == 3)
+                fields = [0, a, i, f, en, dis, cm, md]
+                spec = f'(Ok tt (CPS (ctx_of {hs} 0 {m}) {m} {a} {i} {f} {en} {dis} {cm} {md}))'
+            args = ' '.join(str(x) for x in fields)
+            model = f'(enc_out enc_machine enc_unit ({cls}_execute {cfg + " " if cf else ""}{args} {m}))'
+            out.append({'impl': {'kind': 'exec', 'state': st, 'module': snake(cls), 'cls': cls, 'fields': fields},
+                        'model': model, 'spec': f'(enc_out enc_machine enc_unit {spec})', 'label': 'hint_' + cls, 'nontrivial': True})
+    return out
+
+
+def snake(name):
+    import re
+    if name == 'Yield':
+        return 'yield_'
+    return re.sub(r'(?<!^)(?=[A-Z])', '_', name).lower()
+
+
 def units():
     thms = ['C12_cpsr_write', 'C12_user_cannot_mask', 'C12_exec_bits_only_on_return', 'C12_never_bad_mode',
             'C12_no_monitor_from_nonsecure', 'C12_nmfi', 'C12_aw', 'C12_fw', 'C12_reserved']
@@ -144,5 +262,19 @@ def units():
                  ['registers.Registers.cpsr_write_by_instr'], cpsr_write_cases, IMPORTS, SPEC_IMPORTS),
             Unit('coproc_gate', ['C12_coproc_gate'], ['Proofs/CoprocProofs.v'], ['arm_v6.ArmV6.coproc_accepted'], coproc_cases,
                  IMPORTS, SPEC_IMPORTS + '\nFrom ArmV Require Import Spec.Coproc.'),
-            Unit('exception_return', [], [], [], return_cases, IMPORTS + '\nFrom Gen Require Import exec.',
+            Unit('status', ['C12_MrsApplication', 'C12_MsrImmediateApplication', 'C12_MsrRegisterApplication', 'C12_MrsSystem',
+                            'C12_spsr_write', 'C12_MsrImmediateSystem', 'C12_MsrRegisterSystem'], ['Proofs/StatusProofs.v'],
+                 ['opcodes.abstract_opcodes.%s.%s.execute' % (snake(c), c) for c in
+                  ('MrsApplication', 'MrsSystem', 'MsrImmediateApplication', 'MsrRegisterApplication', 'MsrImmediateSystem', 'MsrRegisterSystem')]
+                 + ['registers.Registers.spsr_write_by_instr'], status_cases, IMPORTS + '\nFrom Gen Require Import exec.',
+                 SPEC_IMPORTS + '\nFrom ArmV Require Import Spec.MachineView Spec.Exceptions Spec.BlockFamily Spec.StatusAccess.'),
+            Unit('hints', ['C12_Nop', 'C12_Clrex', 'C12_Yield', 'C12_Sev', 'C12_Setend', 'C12_Wfe', 'C12_Wfi', 'C12_Eret', 'C12_CpsArm',
+                           'C12_CpsThumb'], ['Proofs/HintProofs.v'],
+                 ['opcodes.abstract_opcodes.%s.%s.execute' % (snake(c), c) for c in
+                  ('Nop', 'Clrex', 'Yield', 'Sev', 'Setend', 'Wfe', 'Wfi', 'Eret', 'CpsArm', 'CpsThumb')],
+                 hint_cases, IMPORTS + '\nFrom Gen Require Import exec.',
+                 SPEC_IMPORTS + '\nFrom ArmV Require Import Lib.PyZ Lib.Monad Spec.MachineView Spec.Exceptions Spec.BlockFamily Spec.StatusAccess.'),
+            Unit('exception_return', ['C12_SubsPcLrThumb', 'C12_SubsPcLrArm', 'C12_ret_ok_no_virt'], ['Proofs/ReturnProofs.v'],
+                 ['opcodes.abstract_opcodes.subs_pc_lr_thumb.SubsPcLrThumb.execute', 'opcodes.abstract_opcodes.subs_pc_lr_arm.SubsPcLrArm.execute'],
+                 return_cases, IMPORTS + '\nFrom Gen Require Import exec.',
                  SPEC_IMPORTS + '\nFrom ArmV Require Import Spec.MachineView Spec.Exceptions Spec.BlockFamily Spec.Return.')]
